@@ -586,3 +586,216 @@ pub fn record(path: &str, set_mode: bool, seed: u64, runs: usize, steps: usize, 
     out.flush().unwrap();
     json!({"events": events, "runs": runs, "container_raised_panics": panics, "caps": caps, "classes": classes})
 }
+
+// ------------------------------------------------------------------------------------------------
+// A container of MORE THAN 65 536 entries (slot indices beyond two bytes), observed through a WINDOW.
+//
+// Every call of the vocabulary used here (inserts, lookups, removals, the Entry API, get_disjoint_mut,
+// insert_unchecked) speaks about a few keys only; what an ideal dictionary answers depends on whether
+// THOSE keys are present, on their values, and on how much room is left. The event therefore records
+// the watched keys only (`s`, `p` = the watched entries before / after) plus `hid`, the number of
+// entries outside the window, and `hsum`, a checksum over every hidden entry (objects and contents):
+// spec/Trace.tla judges the call with Dict!DictAllows on the window at the capacity the hidden entries
+// leave (n - hid), and requires that the hidden part is exactly what it was.
+pub const HUGE: usize = 65_600;
+
+fn mix(h: u64, x: u64) -> u64 {
+    (h ^ x).wrapping_mul(0x9E37_79B9_7F4A_7C15).rotate_left(23)
+}
+
+struct Win {
+    /// watched entries in pool order
+    ents: Vec<(KO, VO)>,
+    hid: usize,
+    hsum: u64,
+}
+
+fn observe_window<const N: usize>(m: &Map<Key, Val, N>, pool: &[Cls]) -> Win {
+    let _q = ledger::Quiet::new();
+    let mut ents = vec![];
+    let (mut hid, mut hsum) = (0usize, 0u64);
+    // one pass over the slots: reading fields, no callbacks
+    let mut found: Vec<Option<(KO, VO)>> = vec![None; pool.len()];
+    for (k, v) in m.iter() {
+        match pool.iter().position(|c| *c == k.cls.class) {
+            Some(i) if found[i].is_none() => found[i] = Some((ko(k), vo(v))),
+            _ => {
+                hid += 1;
+                let e = mix(mix(mix(mix(k.serial as u64, k.cls.class as u64), k.ver as u64), v.serial as u64), v.content as u64);
+                hsum = hsum.wrapping_add(e);
+                hsum = hsum.wrapping_add(((k.magic as u64) << 32) ^ v.magic as u64);
+            }
+        }
+    }
+    for f in found.into_iter().flatten() {
+        ents.push(f);
+    }
+    Win { ents, hid, hsum }
+}
+
+impl Gen {
+    /// a call about watched keys only
+    fn win_op(&mut self, pool: &[Cls], present: &[Cls]) -> Value {
+        let mut cls = |g: &mut Gen| -> Cls {
+            if !present.is_empty() && g.rng.gen_bool(0.45) {
+                present[g.rng.gen_range(0..present.len())]
+            } else {
+                pool[g.rng.gen_range(0..pool.len())]
+            }
+        };
+        match self.rng.gen_range(0..100) {
+            0..=21 => {
+                let nm = ["insert", "insert", "insert_key_value", "checked_insert"][self.rng.gen_range(0..4)];
+                // (mostly NEW keys, so that the container reaches len() == capacity() and stays near it)
+                let absent: Vec<Cls> = pool.iter().copied().filter(|c| !present.contains(c)).collect();
+                let c = if !absent.is_empty() && self.rng.gen_bool(0.7) { absent[self.rng.gen_range(0..absent.len())] } else { cls(self) };
+                json!({"name": nm, "k": {"kt": TARG + 1, "c": c, "r": self.rng.gen_range(0..2)}, "v": self.v(1)})
+            }
+            22..=33 => {
+                let nm = ["get", "get_key_value", "contains_key", "index"][self.rng.gen_range(0..4)];
+                json!({"name": nm, "c": cls(self), "form": self.rng.gen_range(0..2)})
+            }
+            34..=41 => {
+                let nm = ["get_mut", "index_mut"][self.rng.gen_range(0..2)];
+                json!({"name": nm, "c": cls(self), "form": self.rng.gen_range(0..2), "w": self.w()})
+            }
+            42..=53 => {
+                let nm = ["remove", "remove_entry"][self.rng.gen_range(0..2)];
+                json!({"name": nm, "c": cls(self), "form": self.rng.gen_range(0..2)})
+            }
+            54..=79 => {
+                let ms = [
+                    "key", "or_insert", "or_insert_with", "or_insert_with_key", "or_default", "and_modify", "occ_key", "occ_get",
+                    "occ_get_mut", "occ_into_mut", "occ_insert", "occ_remove", "occ_remove_entry", "vac_key", "vac_into_key", "vac_insert",
+                ];
+                let m = ms[self.rng.gen_range(0..ms.len())];
+                let w = if matches!(m, "and_modify" | "occ_get_mut" | "occ_into_mut") { self.rng.gen_range(0..self.vals) as i64 } else { NO_WRITE };
+                json!({"name": "entry", "m": m, "k": {"kt": TARG + 1, "c": cls(self), "r": self.rng.gen_range(0..2)}, "v": self.v(1), "w": w})
+            }
+            80..=84 => {
+                // only inside its contract: room left, or the key is present
+                json!({"name": "insert_unchecked", "k": {"kt": TARG + 1, "c": cls(self), "r": self.rng.gen_range(0..2)}, "v": self.v(1), "contract": true})
+            }
+            _ => {
+                let j = self.rng.gen_range(0..=4usize);
+                let ks: Vec<Cls> = (0..j).map(|_| cls(self)).collect();
+                let distinct = (0..ks.len()).all(|a| (a + 1..ks.len()).all(|b| ks[a] != ks[b]));
+                let unchecked = distinct && self.rng.gen_bool(0.4);
+                json!({"name": "disjoint", "ks": ks, "w": self.w(), "unchecked": unchecked})
+            }
+        }
+    }
+}
+
+fn run_map_window<const N: usize>(g: &mut Gen, steps: usize, out: &mut impl Write) -> (u64, u64, Value) {
+    ledger::reset();
+    let mut cage = Cage::new(Map::<Key, Val, N>::new());
+    let fill = N - 3;
+    {
+        // the harness' own preparation: class c lands in slot c (comparisons unchecked and unmeasured)
+        let _q = ledger::Quiet::new();
+        for c in 0..fill {
+            cage.m.insert(Key::new(c as Cls, 0), Val::new((c % 3) as u8));
+        }
+    }
+    // watched keys: the first slots, the slots around index 65 536, the last slots, and absent keys
+    let mut pool: Vec<Cls> = vec![0, 1, 2, 255, 256, 65_534, 65_535, 65_536, 65_537, 65_538];
+    pool.extend([(fill - 3) as Cls, (fill - 2) as Cls, (fill - 1) as Cls]);
+    pool.extend((0..10).map(|j| 70_000 + j as Cls));
+    pool.sort();
+    pool.dedup();
+    let mut leaked: HashSet<u32> = HashSet::new();
+    let mut viol_seen = 0usize;
+    let (mut events, mut panics) = (0u64, 0u64);
+    {
+        let w0 = observe_window(&cage.m, &pool);
+        let init: Vec<Value> = w0.ents.iter().map(|(k, v)| json!([k.class, k.ver, v.content])).collect();
+        writeln!(out, "{}", json!({"o": {"name": "reset"}, "n": N, "mode": "map", "init": init})).unwrap();
+    }
+    let mut max_index_touched = 0usize;
+    for _ in 0..steps {
+        let pre = observe_window(&cage.m, &pool);
+        let present: Vec<Cls> = pre.ents.iter().map(|(k, _)| k.class).collect();
+        let pre_len = cage.m.len();
+        let mut op = g.win_op(&pool, &present);
+        if op["name"] == "insert_unchecked" {
+            // keep the unsafe call inside its contract
+            let c = op["k"]["c"].as_u64().unwrap() as Cls;
+            if pre_len >= N && !present.contains(&c) {
+                op["name"] = json!("insert");
+            }
+            op.as_object_mut().unwrap().remove("contract");
+        }
+        let mut ctx = Ctx::new(false);
+        ctx.fresh_tag = TFRESH;
+        for (idx, (k, v)) in pre.ents.iter().enumerate() {
+            ctx.tags.bind_k(idx as i64 + 1, k.serial);
+            ctx.tags.bind_v(idx as i64 + 1, v.serial);
+        }
+        let s: Vec<Value> = pre.ents.iter().map(|(k, v)| json!([k.class, k.ver, v.content])).collect();
+        ledger::mark();
+        let ret = no_nulls(exec_map(&mut cage, &op, &mut ctx));
+        if ctx.panicked {
+            panics += 1;
+        }
+        if let Some(d) = ledger::with(|l| l.defaults.first().copied()) {
+            ctx.tags.bind_v(TFRESH, d);
+            op["fresh"] = json!(TFRESH);
+        }
+        let len = cage.m.len();
+        let mut viol: Vec<String> = vec![];
+        if !cage.intact() || len > N {
+            viol.push("memory outside the container was written or len() exceeds capacity()".into());
+            writeln!(out, "{}", json!({"n": N, "mode": "map", "s": s, "o": op, "r": ret, "p": [], "dk": [], "dv": [], "lk": [], "lv": [], "len": len, "empty": false, "viol": viol, "injected": false, "hid": pre.hid, "hid2": 0, "hsum": "", "hsum2": "x"})).unwrap();
+            std::mem::forget(cage);
+            return (events + 1, panics, json!({"pool": pool}));
+        }
+        let post = observe_window(&cage.m, &pool);
+        let ret = if op["fresh"].is_null() { ret } else { rebind_fresh(&ret, &ctx) };
+        let p: Vec<Value> =
+            post.ents.iter().map(|(k, v)| json!([ctx.tags.ktag(k.serial), k.class, k.ver, ctx.tags.vtag(v.serial), v.content])).collect();
+        let drops = ledger::with(|l| l.drops.clone());
+        let (dk, dv) = tags_of(&ctx, &drops);
+        // placement over ALL stored objects (one pass, no callbacks)
+        let stored: Vec<u32> = cage.m.iter().flat_map(|(k, v)| [k.serial, v.serial]).collect();
+        let (lk, lv, srs) = unplaced(&ctx, &stored, &leaked);
+        leaked.extend(srs);
+        let all_viol = ledger::with(|l| l.viol.clone());
+        viol.extend(all_viol.iter().skip(viol_seen).cloned());
+        viol_seen = all_viol.len();
+        for n in ctx.notes.drain(..) {
+            viol.push(format!("[{}] {}", n.props, n.msg));
+        }
+        // (how far up the touched keys sit: evidence that indices beyond 65 535 are exercised)
+        for (i, (k, _)) in cage.m.iter().enumerate() {
+            if i > max_index_touched && pool.contains(&k.cls.class) {
+                max_index_touched = i;
+            }
+        }
+        writeln!(
+            out,
+            "{}",
+            json!({"n": N, "mode": "map", "s": s, "o": op, "r": ret, "p": p, "dk": dk, "dv": dv, "lk": lk, "lv": lv,
+                   "len": len, "empty": cage.m.is_empty(), "viol": viol, "injected": false,
+                   "hid": pre.hid, "hid2": post.hid, "hsum": format!("{:016x}", pre.hsum), "hsum2": format!("{:016x}", post.hsum)})
+        )
+        .unwrap();
+        events += 1;
+        drop(ctx);
+    }
+    {
+        // the final drop of 65 000+ instrumented pairs: every object exactly once (the ledger flags the rest)
+        drop(cage);
+    }
+    (events, panics, json!({"pool": pool, "highest_slot_holding_a_watched_key": max_index_touched, "filled": fill}))
+}
+
+pub fn record_window(path: &str, set_mode: bool, seed: u64, steps: usize) -> Value {
+    assert!(!set_mode, "the windowed trace drives Map");
+    let mut out = std::io::BufWriter::new(std::fs::File::create(path).expect("trace file"));
+    let mut g = Gen { rng: StdRng::seed_from_u64(seed), classes: 70_100, vals: 3, inject: 0.0 };
+    let (events, panics, info) = run_map_window::<HUGE>(&mut g, steps, &mut out);
+    out.flush().unwrap();
+    let left = ledger::with(|l| l.viol.len());
+    json!({"events": events, "runs": 1, "container_raised_panics": panics, "caps": [HUGE], "classes": 70_100, "window": info, "ledger_findings": left})
+}
